@@ -1,6 +1,7 @@
 package kit
 
 import (
+	"fmt"
 	"pgregory.net/rapid"
 )
 
@@ -27,11 +28,15 @@ type GenOpts struct {
 	VoidAnyLife      bool // initializer-shaped functions registered with any lifetime (C08)
 	DisposableBias   bool // prefer D types
 	ChainBias        bool // prefer depending on recently generated services (deeper chains)
+	AltImpl          bool // interface-typed outputs whose concrete implementation alternates between invocations
+	Drops            bool // one identity of a multi-identity registration is removed again right after the call
+	NamedVoid        bool // initializer functions registered with a name (resolvable as a keyed empty struct)
+	PreBuild         bool // the collection is built (and the provider used and closed) once before all registrations are in
 }
 
 func FullOpts() GenOpts {
 	return GenOpts{MinRegs: 1, MaxRegs: 9, Multi: true, Out: true, OutGroupFields: true, Instance: true, Void: true, As: true, MultiAs: true,
-		Groups: true, Keys: true, MultiGroup: true, OptionalMissing: true, Builtins: true, Err: true, Iface: true, MaxDeps: 3, NilOuts: true}
+		Groups: true, Keys: true, MultiGroup: true, OptionalMissing: true, Builtins: true, Err: true, Iface: true, MaxDeps: 3, NilOuts: true, AltImpl: true, Drops: true, PreBuild: true, NamedVoid: true}
 }
 
 // NeverType is a concrete type id that generated configurations never provide.
@@ -51,8 +56,8 @@ type avail struct {
 
 type genState struct {
 	o         GenOpts
-	avail     []avail          // keyed / plain identities provided so far
-	used      map[Ident]bool   // (T,Key) taken
+	avail     []avail            // keyed / plain identities provided so far
+	used      map[Ident]bool     // (T,Key) taken
 	groups    map[groupKey][]int // lifetimes of members
 	closedGrp map[groupKey]bool
 }
@@ -166,7 +171,7 @@ func (g *genState) genDeps(t *rapid.T, life int) (deps []DepSpec, needIn bool) {
 			if !g.o.Builtins {
 				continue
 			}
-			deps = append(deps, DepSpec{Builtin: rapid.IntRange(1, 3).Draw(t, "builtin")})
+			deps = append(deps, DepSpec{Builtin: rapid.IntRange(1, 3).Draw(t, "builtin"), Optional: rapid.IntRange(0, 3).Draw(t, "optbuiltin") == 0})
 		case k == 8: // optional dependency with no provider / empty group
 			if !g.o.OptionalMissing {
 				continue
@@ -337,6 +342,9 @@ func GenConfig(t *rapid.T, o GenOpts) *Config {
 				g.take(Ident{T: os.T, Key: os.Key, Group: os.Group}, r.Life, i)
 			}
 		case FormVoid:
+			if o.NamedVoid && r.Life == Scoped && rapid.IntRange(0, 2).Draw(t, "namedvoid") == 0 {
+				r.Name = fmt.Sprintf("init%d", i)
+			}
 		}
 		if !ok {
 			continue
@@ -360,13 +368,34 @@ func GenConfig(t *rapid.T, o GenOpts) *Config {
 				r.HasErr = rapid.IntRange(0, 2).Draw(t, "hasErr") == 0
 			}
 		}
+		if o.AltImpl && (r.Form == FormPlain || r.Form == FormOut) && len(r.As) == 0 {
+			for j := range r.Outs {
+				os := &r.Outs[j]
+				if !IsIface(os.T) || os.Nil || rapid.IntRange(0, 1).Draw(t, "alt") == 0 {
+					continue
+				}
+				// the other implementation differs in whether it has a Close method
+				if IsDisposable(os.Impl) {
+					os.Alt = NumD + rapid.IntRange(0, NeverType-NumD-1).Draw(t, "altN")
+				} else {
+					os.Alt = rapid.IntRange(0, NumD-1).Draw(t, "altD")
+				}
+				os.HasAlt = true
+			}
+		}
 		regs = append(regs, r)
+	}
+	if o.Drops {
+		genDrops(t, regs)
 	}
 	// shuffle registration order
 	perm := rapid.Permutation(seq(len(regs))).Draw(t, "regorder")
 	cfg := &Config{}
 	for _, i := range perm {
 		cfg.Regs = append(cfg.Regs, regs[i])
+	}
+	if o.PreBuild && len(cfg.Regs) >= 2 && rapid.IntRange(0, 3).Draw(t, "prebuild") == 0 {
+		cfg.PreBuild = rapid.IntRange(1, len(cfg.Regs)-1).Draw(t, "prebuildN")
 	}
 	return cfg
 }
@@ -450,4 +479,56 @@ func GenKindsConfig(t *rapid.T) *Config {
 		out.Regs = append(out.Regs, cfg.Regs[i])
 	}
 	return out
+}
+
+// genDrops lets some registrations that register several identities lose one
+// of them again (Remove / RemoveKeyed right after the Add call). Only an
+// identity nobody depends on is dropped, at least one real output stays, and
+// Remove(T) is only used for a type that has no keyed or grouped registration
+// (its documentation and its implementation disagree about those).
+func genDrops(t *rapid.T, regs []Reg) {
+	needed := map[Ident]bool{}
+	typeHasKeyedOrGroup := map[int]bool{}
+	for _, r := range regs {
+		for _, d := range r.Deps {
+			if d.Builtin == 0 && !d.Ignored {
+				needed[Ident{T: d.T, Key: d.Key}] = true
+			}
+		}
+		for _, p := range r.AllProvides() {
+			if p.Ident.Key != "" || p.Ident.Group != "" {
+				typeHasKeyedOrGroup[p.Ident.T] = true
+			}
+		}
+	}
+	for i := range regs {
+		r := &regs[i]
+		all := r.AllProvides()
+		if len(all) < 2 || r.Form == FormInstance {
+			continue
+		}
+		var cand []int
+		for k, p := range all {
+			if p.Ident.Group != "" || needed[p.Ident] {
+				continue
+			}
+			if p.Ident.Key == "" && typeHasKeyedOrGroup[p.Ident.T] {
+				continue
+			}
+			// something real must remain
+			rest := 0
+			for k2, p2 := range all {
+				if k2 != k && !(p2.Out < len(r.Outs) && r.Outs[p2.Out].Nil) {
+					rest++
+				}
+			}
+			if rest > 0 {
+				cand = append(cand, k)
+			}
+		}
+		if len(cand) == 0 || rapid.IntRange(0, 2).Draw(t, "drop") != 0 {
+			continue
+		}
+		r.Dropped = map[int]bool{rapid.SampledFrom(cand).Draw(t, "dropIdx"): true}
+	}
 }
